@@ -6,6 +6,7 @@ import sys
 import traceback
 
 CORE = {"C01", "C02", "C03", "C04", "C07", "C13"}
+QUERY = {"C06", "C09", "C10", "C15", "C16"}
 
 
 def main(argv):
@@ -29,6 +30,9 @@ def main(argv):
         if prop in CORE:
             from . import checks_core
             return checks_core.run(prop, tier)
+        if prop in QUERY:
+            from . import checks_query
+            return checks_query.run(prop, tier)
         print(f"unknown property {prop}")
         return 2
     except Exception as e:  # noqa: BLE001
